@@ -56,6 +56,10 @@ def spec_for(index, seed=0):
         if rng2.random() < 0.4:
             sp[s]["mode"] = rng2.choice(["both", "both", "both_zero_amount"])
     hosu = rng2.choice([False, False, True])
+    # exact fractions in kinetic laws and rule formulas (division by an integer literal; sympy keeps them as rationals)
+    for item in rxs + rules:
+        if rng2.random() < 0.45:
+            item["formula"] = rng2.choice(["(%s) / 2", "3 * (%s) / 4", "(%s) / 3 + kg / 2", "5 / 2 * (%s)"]) % item["formula"]
     return dict(species=sp, globals=glob, reactions=rxs, rules=rules, index=index, seed=seed, hosu=hosu)
 
 
